@@ -61,7 +61,7 @@ RATES=(0.01 0.05 0.2)
 BASE=$(( (SEED % 100000) * 64 ))
 PIDS=(); FILES=(); METAS=()
 # build once (not in parallel)
-( cd "$VERIF_DIR/mirisim" && cargo +nightly miri setup --offline >/dev/null 2>&1; MIRIFLAGS="" cargo +nightly miri build --offline -q >"$VERIF_DIR/target/miri-build.log" 2>&1 ) || true
+( cd "$VERIF_DIR/mirisim" && cargo +nightly miri setup >/dev/null 2>&1 ) || true
 for V in $(seq 0 $((NVAR-1))); do
   VARIANT=$(( (SEED + V) % 6 ))
   RATE=${RATES[$(( (SEED / 7 + V) % 3 ))]}
